@@ -12,8 +12,9 @@
    of tools/harness/c11.py, which also runs Spec and Model side by side on every case). *)
 From PV Require Import Base.Bytes Base.Outcome Base.Fmt Spec.PrimSpec Spec.ElfGabi Spec.C11Container
   Model.C11Elf Model.C11Dwarf
-  Proofs.C11Crc Proofs.C11View Proofs.C11Zgnu Proofs.C11Links Proofs.C11Reject Proofs.C11Stored
+  Proofs.C11Crc Proofs.C11View Proofs.C11Zgnu Proofs.C11Links Proofs.C11Reject Proofs.C11Refine Proofs.C11Stored
   Proofs.C11Examples.
+From Coq Require Import Lia.
 Open Scope list_scope.
 Open Scope Z_scope.
 
@@ -47,16 +48,33 @@ Theorem C11_view_invariant_gabi :
 Proof. exact gabi_view_invariant. Qed.
 Print Assumptions C11_view_invariant_gabi.
 
-(* more generally: sections that agree on name, type, address and stored payload (and on
-   the raw bytes when they carry the debug link) are interchangeable *)
+(* more generally: files whose sections agree pairwise on name and on being a relocation
+   section, on address and stored payload where the DWARF reader asks for the name, and on
+   the raw bytes where it is the debug-link carrier, are interchangeable *)
 Theorem C11_view_depends_on_payloads :
   forall (inflate : list Z -> Z -> option (list Z * bool)) (parse : list Z -> option elf) (e e' : elf),
   e_le e' = e_le e -> e_is64 e' = e_is64 e -> e_machine e' = e_machine e -> e_flags e' = e_flags e ->
-  Forall2 (sec_equiv inflate (e_le e) (e_is64 e)) (e_secs e) (e_secs e') ->
+  Forall2 (fun s s' =>
+             s_name s' = s_name s /\ is_reloc_sec s' = is_reloc_sec s /\
+             (observed (s_name s) = true ->
+                s_addr s' = s_addr s /\
+                stored_payload inflate (e_le e) (e_is64 e) s' = stored_payload inflate (e_le e) (e_is64 e) s) /\
+             (s_name s = n_debuglink -> s_stream s' = s_stream s))
+          (e_secs e) (e_secs e') ->
   forall relocate fuel fs follow,
     debug_view inflate parse fuel fs e' relocate follow = debug_view inflate parse fuel fs e relocate follow.
 Proof. exact secs_equiv_view. Qed.
 Print Assumptions C11_view_depends_on_payloads.
+
+(* keep-debug: dropping the contents of every section the DWARF reader never asks for
+   (SHT_NOBITS, arbitrary bytes at its offset) changes nothing — unconditionally *)
+Theorem C11_view_invariant_keep_debug :
+  forall (inflate : list Z -> Z -> option (list Z * bool)) (parse : list Z -> option elf)
+         (fill : nat -> list Z) (e : elf) fuel fs relocate follow,
+    debug_view inflate parse fuel fs (T_keep_debug fill e) relocate follow
+    = debug_view inflate parse fuel fs e relocate follow.
+Proof. exact keep_debug_view_invariant. Qed.
+Print Assumptions C11_view_invariant_keep_debug.
 
 (* legacy GNU (".debug_X" renamed ".zdebug_X", "ZLIB" + 8-byte big-endian size + zlib
    stream), decided PER NAME, relocation sections renamed along; file in the plain naming,
@@ -211,7 +229,7 @@ Theorem C11_declared_size_mismatch_no_payload :
   decode_layout (spec_Elf_Chdr le is64) (s_stream s) = Some (h, t) ->
   is_nobits s = false -> rec_z h "ch_type" = ELFCOMPRESS_ZLIB ->
   deflated inflate (py_read (s_size s - Z.of_nat (chdr_size is64)) (skipn (chdr_size is64) (s_stream s))) p ->
-  0 <= rec_z h "ch_size" -> rec_z h "ch_size" <> zlen p ->
+  0 <= rec_z h "ch_size" < 2 ^ 63 -> rec_z h "ch_size" <> zlen p ->
   gabi_payload inflate le is64 s = None.
 Proof. exact spec_declared_size_mismatch_rejected. Qed.
 Print Assumptions C11_declared_size_mismatch_no_payload.
@@ -227,10 +245,75 @@ Theorem C11_declared_size_smaller_accepted_before_repair :
 Proof. exact declared_size_smaller_accepted_before_repair. Qed.
 Print Assumptions C11_declared_size_smaller_accepted_before_repair.
 
+(* ======================================================================= the model of the code computes the specification *)
+(* get_dwarf_info of Model/C11Dwarf.v returns a DWARFInfo whose view is debug_view, and raises
+   exactly when there is no view — for every constructible file (every file parse_image returns),
+   every fuel, loader returning byte strings, relocate, follow_links; the oracle refuses
+   max_length >= 2^63 as CPython does.  So the theorems above are theorems about the model. *)
+Theorem C11_model_refines_spec :
+  forall (inflate : list Z -> Z -> option (list Z * bool)),
+  (forall d n, 2 ^ 63 <= n -> inflate d n = None) ->
+  forall (loader : option (list Z -> option (list Z))),
+  (forall (load : list Z -> option (list Z)) (n b : list Z),
+     loader = Some load -> load n = Some b -> all_bytes b = true) ->
+  forall fuel e relocate follow, constructible e = true ->
+  res_view (get_dwarf_info inflate fuel loader e relocate follow)
+  = debug_view inflate parse_opt fuel loader e relocate follow.
+Proof. exact model_refines_spec. Qed.
+Print Assumptions C11_model_refines_spec.
+
+Theorem C11_model_view_invariant_gabi :
+  forall (inflate : list Z -> Z -> option (list Z * bool)),
+  (forall d n, 2 ^ 63 <= n -> inflate d n = None) ->
+  forall (loader : option (list Z -> option (list Z))),
+  (forall (load : list Z -> option (list Z)) (n b : list Z),
+     loader = Some load -> load n = Some b -> all_bytes b = true) ->
+  forall choice e,
+  constructible e = true -> gabi_choice_ok choice e = true -> gabi_blobs_ok inflate choice e ->
+  forall fuel relocate follow,
+    res_view (get_dwarf_info inflate fuel loader (T_gabi choice e) relocate follow)
+    = res_view (get_dwarf_info inflate fuel loader e relocate follow).
+Proof. exact model_gabi_invariant. Qed.
+Print Assumptions C11_model_view_invariant_gabi.
+
+Theorem C11_model_view_invariant_zgnu :
+  forall (inflate : list Z -> Z -> option (list Z * bool)),
+  (forall d n, 2 ^ 63 <= n -> inflate d n = None) ->
+  forall (loader : option (list Z -> option (list Z))),
+  (forall (load : list Z -> option (list Z)) (n b : list Z),
+     loader = Some load -> load n = Some b -> all_bytes b = true) ->
+  forall choice e,
+  constructible e = true -> zgnu_choice_ok choice e = true -> zgnu_blobs_ok inflate choice e ->
+  plain_names e = true -> no_phantom e = true ->
+  forall fuel relocate follow,
+    res_view (get_dwarf_info inflate fuel loader (T_zgnu choice e) relocate follow)
+    = res_view (get_dwarf_info inflate fuel loader e relocate follow).
+Proof. exact model_zgnu_invariant. Qed.
+Print Assumptions C11_model_view_invariant_zgnu.
+
+(* the transforms keep a file constructible, so they can be iterated and mixed *)
+Theorem C11_transforms_constructible : forall e, constructible e = true ->
+  (forall choice, gabi_choice_ok choice e = true -> constructible (T_gabi choice e) = true) /\
+  (forall choice, zgnu_choice_ok choice e = true -> constructible (T_zgnu choice e) = true).
+Proof. exact (fun e Hc => conj (fun ch H => gabi_constructible ch e H Hc) (fun ch H => zgnu_constructible ch e H Hc)). Qed.
+Print Assumptions C11_transforms_constructible.
+
 (* ======================================================================= non-vacuity *)
-(* the law assumed of zlib is satisfiable: the stored codec obeys it for every content *)
-Example C11_ex_oracle_law_satisfiable : forall p, deflated inflate_stored p p.
-Proof. exact stored_deflated. Qed.
+(* the laws assumed of zlib are jointly satisfiable: the stored codec obeys them for every content *)
+Example C11_ex_oracle_law_satisfiable :
+  (forall p, deflated inflate_stored p p) /\ (forall d n, 2 ^ 63 <= n -> inflate_stored d n = None).
+Proof.
+  split; [exact stored_deflated|]. intros d n Hn. unfold inflate_stored.
+  destruct (Z.eqb_spec n 0) as [->|_]; [lia|].
+  destruct (Z.leb_spec (2 ^ 63) n) as [_|H]; [reflexivity|lia].
+Qed.
+
+(* the model on a concrete re-encoded file: a DWARFInfo, the same as for the original *)
+Example C11_ex_model :
+  res_view (get_dwarf_info inflate_stored 2 None (T_gabi ex_gabi_choice ex_elf) true true) <> None /\
+  res_view (get_dwarf_info inflate_stored 2 None (T_zgnu ex_zgnu_choice ex_elf) true true)
+  = res_view (get_dwarf_info inflate_stored 2 None ex_elf true true).
+Proof. split; [vm_compute; discriminate|vm_compute; reflexivity]. Qed.
 
 (* gABI: the hypotheses hold of a concrete file and choice, the transform changes the file,
    and the (equal) views are not the trivial None *)
@@ -245,6 +328,13 @@ Proof.
   split; [discriminate|]. split; [vm_compute; discriminate|].
   apply C11_view_invariant_gabi; [reflexivity|apply stored_gabi_blobs_ok; reflexivity].
 Qed.
+
+(* keep-debug changes the file (.text loses its contents) *)
+Example C11_ex_keep_debug :
+  T_keep_debug (fun _ => [1; 2; 3]) ex_elf <> ex_elf /\
+  debug_view inflate_stored ex_parse 2 None (T_keep_debug (fun _ => [1; 2; 3]) ex_elf) true true
+  = debug_view inflate_stored ex_parse 2 None ex_elf true true.
+Proof. split; [discriminate|apply C11_view_invariant_keep_debug]. Qed.
 
 (* legacy: both .debug_info sections and (by renaming) .rela.debug_info are involved;
    the relocation section is still found, at the same index *)
